@@ -394,6 +394,7 @@ class Package:
         self.modobjs = []          # list of dict(key, attrs:set, submods:dict attr->idx)
         self.modobj_idx = {}       # key -> idx
         self._import_memo = {}
+        self._loaded_memo = {}
         self._objs = {}
         self.notes = []
         # imports[(module name, scope idx)] = {name: modobj idx}
@@ -418,7 +419,8 @@ class Package:
         for m in self.mods:
             for s in m.scopes:
                 self.import_idx[(m.name, s.idx)] = {
-                    n: self.intern_modobj(k) for n, k in sorted(self.imports[(m.name, s.idx)].items())}
+                    n: self.intern_modobj(self._ref_key(k, m.name))
+                    for n, k in sorted(self.imports[(m.name, s.idx)].items())}
         for m in self.mods:
             for s in m.scopes:
                 for base, path, line in self.chains[(m.name, s.idx)]:
@@ -436,6 +438,60 @@ class Package:
                 self.walk_chain(i, [attr])
                 out.append((i, attr, line))
             self.from_checks[m.name] = out
+
+    # ---- which submodules are loaded when a module of the package has been imported? -------------
+    def _imported_by(self, m, scopes):
+        """Absolute names of the modules that the import statements in `scopes` of source module m load."""
+        out = set()
+
+        def add(name):
+            parts = name.split('.')
+            for i in range(1, len(parts) + 1):
+                out.add('.'.join(parts[:i]))
+        for s in scopes:
+            for binders in s.bound.values():
+                for b in binders:
+                    if b[0] != 'import':
+                        continue
+                    spec = b[1]
+                    if spec[0] == 'mod':
+                        add(spec[2] if len(spec) == 3 else spec[1])
+                    else:
+                        add(spec[1])
+                        add(spec[1] + '.' + spec[2])      # harmless when the attribute is not a module
+        return out
+
+    def loaded_by(self, modname):
+        """Modules certainly (flow-insensitively) loaded once `modname` runs: the transitive closure of the
+        module-level imports of the package's source modules, starting from modname and the __init__ of its
+        parent packages, plus the imports anywhere inside modname itself (function-level ones included)."""
+        if modname in self._loaded_memo:
+            return self._loaded_memo[modname]
+        seen, todo = set(), [modname]
+        parts = modname.split('.')
+        todo += ['.'.join(parts[:i]) for i in range(1, len(parts))]
+        first = True
+        while todo:
+            n = todo.pop()
+            if n in seen:
+                continue
+            seen.add(n)
+            m = self.by_name.get(n)
+            if m is None:
+                continue
+            scopes = m.scopes if n == modname else m.scopes[:1]
+            for x in self._imported_by(m, scopes):
+                if x not in seen:
+                    todo.append(x)
+        self._loaded_memo[modname] = seen
+        return seen
+
+    def _ref_key(self, k, refmod):
+        """A source PACKAGE object is described per referencing module: which of its submodules are attributes of
+        it depends on what has been imported by then."""
+        if k is not None and k[0] == 'src' and len(k) == 2 and self.by_name[k[1]].is_pkg:
+            return ('src', k[1], refmod)
+        return k
 
     # ---- which module object does a name denote? ---------------------------
     def module_key(self, absname):
@@ -473,7 +529,8 @@ class Package:
                     return None
                 return self.module_bound_to(m, m.scopes[0], attr, _seen + ((key, attr),))
             if m.is_pkg:
-                return self.module_key(key[1] + '.' + attr)      # submodule (source file or installed)
+                sk = self.module_key(key[1] + '.' + attr)      # submodule (source file or installed)
+                return self._ref_key(sk, key[2]) if len(key) > 2 else sk
             return None
         obj = self.dyn(key)
         try:
@@ -517,11 +574,14 @@ class Package:
             attrs = set(m.scopes[0].bound_names())
             if m.is_pkg:
                 d = os.path.dirname(m.path)
+                # a submodule is an attribute of the package object only once it has been imported: when the
+                # package is reached through a name of referencing module key[2], only the submodules loaded by then
+                loaded = self.loaded_by(key[2]) if len(key) > 2 else None
                 for f in os.listdir(d):
-                    if f.endswith('.py') and f != '__init__.py':
-                        attrs.add(f[:-3])
-                    elif os.path.exists(os.path.join(d, f, '__init__.py')):
-                        attrs.add(f)
+                    sub = f[:-3] if f.endswith('.py') and f != '__init__.py' else \
+                        (f if os.path.exists(os.path.join(d, f, '__init__.py')) else None)
+                    if sub and (loaded is None or f'{key[1]}.{sub}' in loaded):
+                        attrs.add(sub)
         else:
             attrs = set(dir(self.dyn(key)))
         self.modobjs.append({'key': key, 'attrs': attrs, 'submods': {}})
